@@ -5,8 +5,10 @@ import (
 	"encoding/binary"
 	"fmt"
 	"math"
+	"math/big"
 	"net/netip"
 	"sort"
+	"strconv"
 	"testing"
 
 	"github.com/cilium/statedb"
@@ -318,7 +320,7 @@ func TestVerif_Encoders(t *testing.T) {
 				fail("uint32", "Uint32(%d)=%x vs Uint32(%d)=%x", prevV32, prev, v, k)
 			}
 		}
-		if len(k) != 4 || !bytes.Equal(index.Int32(int32(v)), k) || !bytes.Equal(index.Int(int(int32(v))), k) {
+		if len(k) != 4 || !bytes.Equal(index.Int32(int32(v)), k) {
 			fail("uint32-width", "Uint32(%d)=%x", v, k)
 		}
 		prev, prevV32 = k, v
@@ -367,7 +369,81 @@ func TestVerif_Encoders(t *testing.T) {
 		}
 		tick()
 	}
-	r.Sample(map[string]any{"uint16": "all 65536", "uint64_values": len(u64), "uint32_values": len(u32), "netip": 20000})
+	// Int over its whole domain (the platform's int): different values, different keys; its string form gives the same key
+	seenI := map[string]int{}
+	for _, v := range u64 {
+		for _, n := range []int{int(int64(v)), -int(int64(v >> 1))} {
+			k := index.Int(n)
+			if o, ok := seenI[string(k)]; ok && o != n {
+				fail("int-collision", "Int(%d) and Int(%d) give the same key %x", o, n, k)
+				break
+			}
+			seenI[string(k)] = n
+			if ks, err := index.IntString(strconv.Itoa(n)); err != nil || !bytes.Equal(ks, k) {
+				fail("int-string", "IntString(%q)=(%x,%v), Int(%d)=%x", strconv.Itoa(n), ks, err, n, k)
+				break
+			}
+		}
+		tick()
+	}
+	// the string forms of the encoders (FromString of an index: AnyTable, script and HTTP queries): a decimal string inside the
+	// domain gives the key of that value, a string outside it is refused - it must not be given the key of another value
+	type parser struct {
+		name     string
+		parse    func(string) (index.Key, error)
+		min, max *big.Int
+		key      func(*big.Int) index.Key
+	}
+	bi := func(s string) *big.Int { b, _ := new(big.Int).SetString(s, 10); return b }
+	parsers := []parser{
+		{"Uint16String", index.Uint16String, bi("0"), bi("65535"), func(b *big.Int) index.Key { return index.Uint16(uint16(b.Uint64())) }},
+		{"Uint32String", index.Uint32String, bi("0"), bi("4294967295"), func(b *big.Int) index.Key { return index.Uint32(uint32(b.Uint64())) }},
+		{"Uint64String", index.Uint64String, bi("0"), bi("18446744073709551615"), func(b *big.Int) index.Key { return index.Uint64(b.Uint64()) }},
+		{"Int16String", index.Int16String, bi("-32768"), bi("32767"), func(b *big.Int) index.Key { return index.Int16(int16(b.Int64())) }},
+		{"Int32String", index.Int32String, bi("-2147483648"), bi("2147483647"), func(b *big.Int) index.Key { return index.Int32(int32(b.Int64())) }},
+		{"Int64String", index.Int64String, bi("-9223372036854775808"), bi("9223372036854775807"), func(b *big.Int) index.Key { return index.Int64(b.Int64()) }},
+	}
+	for _, ps := range parsers {
+		var cands []*big.Int
+		for _, e := range []*big.Int{ps.min, ps.max, bi("0"), bi("80"), bi("65536"), bi("65616"), bi("4294967296"), bi("4294967376"), bi("18446744073709551616"), bi("-1"), bi("-65456"), bi("-4294967216")} {
+			for d := int64(-2); d <= 2; d++ {
+				cands = append(cands, new(big.Int).Add(e, big.NewInt(d)))
+			}
+		}
+		for i := 0; i < 2000; i++ {
+			v := new(big.Int).SetUint64(rng.Uint64() >> uint(rng.IntN(64)))
+			if rng.IntN(2) == 0 {
+				v.Neg(v)
+			}
+			if rng.IntN(8) == 0 {
+				v.Lsh(v, uint(rng.IntN(8)))
+			}
+			cands = append(cands, v)
+		}
+		for _, v := range cands {
+			k, err := ps.parse(v.String())
+			in := v.Cmp(ps.min) >= 0 && v.Cmp(ps.max) <= 0
+			switch {
+			case in && (err != nil || !bytes.Equal(k, ps.key(v))):
+				fail("parser/"+ps.name, "%s(%q)=(%x,%v), the value's key is %x", ps.name, v.String(), k, err, ps.key(v))
+			case !in && err == nil:
+				fail("parser-out-of-domain/"+ps.name, "%s(%q) is outside the domain but was accepted with key %x (the key of another value)", ps.name, v.String(), k)
+			}
+			tick()
+		}
+	}
+	for _, c := range []struct {
+		s    string
+		want bool
+	}{{"true", true}, {"false", false}, {"1", true}, {"0", false}} {
+		if k, err := index.BoolString(c.s); err != nil || !bytes.Equal(k, index.Bool(c.want)) {
+			fail("parser/BoolString", "BoolString(%q)=(%x,%v)", c.s, k, err)
+		}
+	}
+	if _, err := index.BoolString("maybe"); err == nil {
+		fail("parser-out-of-domain/BoolString", "BoolString(\"maybe\") accepted")
+	}
+	r.Sample(map[string]any{"uint16": "all 65536", "uint64_values": len(u64), "uint32_values": len(u32), "netip": 20000, "parsers": len(parsers)})
 	r.Finish()
 }
 
